@@ -11,6 +11,12 @@ FILES = ["zz_verif_common_test.go", "zz_verif_c16_test.go"]
 def classify(rec):
     """Narrow keys of the genuine defects found for C16 (all fixed in /repo, so they suppress nothing)."""
     want = rec.get("want") or []
+    i = rec.get("in") or {}
+    h, c = i.get("host") or [], i.get("cli") or []
+    if h and len(c) >= len(h) and not str(rec.get("how", "")).startswith("history-dependent"):
+        tail = c[len(c) - len(h):]
+        if tail != h and [x.lower() for x in tail] == [x.lower() for x in h]:
+            return "server-name-differs-in-letter-case"
     if (str(rec.get("how", "")).startswith("history-dependent") and (rec.get("got") or {}).get("k") == "id"
             and want and all(o.get("k") in ("none", "err") for o in want)):
         # A history with late requests of the previous proxy instance is the second, separate defect.
